@@ -13,6 +13,7 @@ import json
 import os
 import re
 import subprocess
+import sys
 import time
 from concurrent.futures import ThreadPoolExecutor
 
@@ -174,7 +175,7 @@ def long_sequences(rng, thorough):
     def clip(v):
         return max(-255, min(255, int(v)))
 
-    reps = 3 if not thorough else 12
+    reps = 3 if not thorough else 20
     sizes = [7, 63, 64, 65, 300, 1000, 4000]
     for _ in range(reps):
         for n in sizes:
@@ -280,12 +281,62 @@ EXPECTED_BRANCHES = (["br_palsize_%d" % k for k in [0] + list(range(2, 33))] + [
                      ["br_wdiv_%d" % k for k in (0, 1, 2, 3, 4, 5, 7)] +
                      ["br_wtrunc", "br_uncompressed_palette_index", "br_uncompressed_direct", "br_palette_plus_direct",
                       "br_direct_only", "br_palette_restart", "br_grc_parameter_switch_or_continuation",
-                      "br_slice_split_at_32767", "br_zero_run_nonempty", "br_multi_slice", "br_no_slice"])
+                      "br_slice_split_at_32767", "br_zero_run_nonempty", "br_multi_slice"])
+
+
+def sanitizer_env():
+    san_dir = common.build_mlw_codec(sanitize=True)
+    rt = subprocess.run(["clang", "-print-file-name=libclang_rt.asan-x86_64.so"], capture_output=True, text=True).stdout.strip()
+    if not os.path.exists(rt):
+        raise InfraError("asan runtime not found: " + rt)
+    env = dict(os.environ, LD_PRELOAD=rt, ASAN_OPTIONS="detect_leaks=0:halt_on_error=1:allocator_may_return_null=1",
+               UBSAN_OPTIONS="print_stacktrace=1:halt_on_error=1")
+    return san_dir, env
+
+
+def run_replay(ck, path, ext):
+    """./check C07 --replay replays/C07-<seed>-<n>.json : run the recorded input again on the tree under test"""
+    rec = json.load(open(path if os.path.isabs(path) else os.path.join(common.VERIF, path)))
+    rp = rec["replay"]
+    job = None
+    sanit = False
+    if isinstance(rp.get("job"), dict):
+        job, sanit = rp["job"], "report" in rp
+    elif "sequence" in rp:
+        job = {"op": "encode", "seq": rp["sequence"]}
+    elif "p" in rp and "weights_ohwi_row_major" in rp:
+        job = {"op": "reorder", "p": rp["p"], "w": rp["weights_ohwi_row_major"], "shape": rp["shape"], "entry": rp["entry"],
+               "acc": rp["acc"], "dilation": rp["dilation"], "layout": rp["layout"], "dtype": rp["dtype"]}
+    if job is None:
+        print("replay: nothing executable recorded in", path, "(", rec["what"][:200], ")")
+        sys.exit(2)
+    if sanit:
+        san_dir, env = sanitizer_env()
+        r = run_jobs([job], san_dir, env, nproc=1)[0]
+    else:
+        r = retry_without_decoder([job], run_jobs([job], ext, nproc=1), ext)[0]
+    print("replay result:", json.dumps({k: (v if not isinstance(v, (list, str)) or len(v) < 300 else str(v)[:300] + "…") for k, v in r.items()}))
+    bad = "crash" in r
+    if "enc" in r:
+        valid = all(-255 <= v <= 255 for v in job.get("seq", job.get("w")))
+        line = ("mlwseq %s %s" % (csv(job["seq"]), r["enc"] or "-")) if job["op"] == "encode" else \
+            ("mlwcheck %s %s %s" % (csv(job["p"]), csv(job["w"]), r["enc"] or "-"))
+        v = common.run_model([line])[0]
+        print("Lean Spec verdict:", v[:300])
+        bad = bad or not v.startswith("ok ") or not valid
+    elif "exc" in r:
+        valid = all(-255 <= v <= 255 for v in job.get("seq", job.get("w")))
+        bad = valid
+    print("replay:", "REPRODUCED" if bad else "not reproduced (property holds on this input now)")
+    sys.exit(1 if bad else 0)
 
 
 # ------------------------------------------------------------------------------------------ main
 def main():
     ck = Check("C07", "translation_validation")
+    if ck.replay_arg:
+        common.setup_repo_path()
+        run_replay(ck, ck.replay_arg, common.build_mlw_codec())
     ck.lean_stage(["VelaVerif.Props.C07"])
     common.setup_repo_path()
     ext = common.build_mlw_codec()
@@ -321,7 +372,7 @@ def main():
     for i, ((label, seq), r) in enumerate(zip(seq_jobs, seq_res)):
         evaluations += 1
         ck.count("seq_" + (label if label == "exhaustive" else "random"))
-        replay = {"entry": "mlw_codec.encode", "label": label, "sequence": seq if len(seq) <= 400 else seq[:400] + ["…%d more" % (len(seq) - 400)],
+        replay = {"entry": "mlw_codec.encode", "label": label, "sequence": seq,
                   "replay": "mlw_codec.encode(sequence) -> ./check C07 (Lean: mlwseq <seq> <hex>)"}
         if "skipped" in r:
             ck.count("skipped_after_repeated_crashes")
@@ -440,7 +491,7 @@ def main():
         ck.count("vol_dtype_" + job["dtype"])
         replay = {k: job[k] for k in ("p", "shape", "entry", "acc", "dilation", "layout", "dtype")}
         replay["params_order"] = "ifm_ublock_depth, ofm_ublock_depth, ofm_depth, kh, kw, ifm_depth, ofm_block_depth, is_depthwise, is_partkernel, ifm_bitdepth, decomp_h, decomp_w"
-        replay["weights_ohwi_row_major"] = job["w"] if len(job["w"]) <= 600 else job["w"][:600] + ["…"]
+        replay["weights_ohwi_row_major"] = job["w"]
         what = f"{job['entry']} acc={meta[0]} ifm_bits={meta[1]} ofm_block_depth={meta[2]} {meta[3]} dilation={meta[4]} shape={job['shape']}"
         if "skipped" in r:
             ck.count("skipped_after_repeated_crashes")
@@ -506,7 +557,8 @@ def main():
                                         continue
                                     cov_lines.append("reordercovers " + csv([iu, ou, od, kh, kw, idp, obd, int(kind == "dw"), int(kind == "pk"), bits, dh, dwd]))
     cov_out = lean_parallel(cov_lines)
-    cov_bad = [(ln, o) for ln, o in zip(cov_lines, cov_out) if not o.endswith("covers=1")]
+    cov_bad = [(ln, o) for ln, o in zip(cov_lines, cov_out)
+               if not o.endswith("covers=1") or o.split(" ")[0][4:] != o.split(" ")[1][5:]]
     evaluations += len(cov_lines)
     ck.count("traversal_configs_enumerated", len(cov_lines))
     for ln, o in cov_bad[:3]:
@@ -518,12 +570,7 @@ def main():
     san_note = None
     san_reports = 0
     try:
-        san_dir = common.build_mlw_codec(sanitize=True)
-        rt = subprocess.run(["clang", "-print-file-name=libclang_rt.asan-x86_64.so"], capture_output=True, text=True).stdout.strip()
-        if not os.path.exists(rt):
-            raise InfraError("asan runtime not found: " + rt)
-        san_env = dict(os.environ, LD_PRELOAD=rt, ASAN_OPTIONS="detect_leaks=0:halt_on_error=1:allocator_may_return_null=1",
-                       UBSAN_OPTIONS="print_stacktrace=1:halt_on_error=1")
+        san_dir, san_env = sanitizer_env()
         probe = run_jobs([{"op": "encode", "seq": [1, 2, 3]}], san_dir, san_env, nproc=1)
         if "enc" not in probe[0]:
             raise InfraError("sanitized extension does not run: " + json.dumps(probe[0])[:300])
@@ -543,7 +590,7 @@ def main():
                 ck.count("skipped_after_repeated_crashes")
             if "crash" in r:
                 san_reports += 1
-                small = {k: (v if not isinstance(v, list) or len(v) <= 800 else v[:800] + ["…"]) for k, v in job.items()}
+                small = job
                 ck.violation(f"sanitizer report in the encoder on a valid input ({job['op']}, {len(job.get('seq', job.get('w')))} weights): "
                              f"{report_head(r['stderr'])[:160]} at {report_site(r['stderr'])}",
                              {"job": small, "report": r["stderr"], "how": "ASan+UBSan build of ethosu/mlw_codec loaded with LD_PRELOAD of the asan runtime"},
